@@ -724,6 +724,22 @@ func runClusterSearch(c *Ctx, r *Rng) {
 		if remote >= 2 {
 			c.Nontrivial("several-remote-partitions")
 		}
+		// a node that does not host a partition must refuse to answer for it: otherwise a caller whose
+		// placement view is stale (replica moved) silently counts that partition as empty
+		for pi := 0; pi < P; pi++ {
+			local := false
+			for _, h := range d.VerifPartitionAt(pi).NodeIds() {
+				if h == entry {
+					local = true
+				}
+			}
+			if !local {
+				resp, perr := cl.nodes[entry].dmSrv.PartitionInfo(ctx, &pb.PartitionInfoRequest{DatasetId: dsId.Bytes(), PartitionId: pids[pi].Bytes()})
+				if perr == nil {
+					c.Violate("C17", "C17/non-host-answers", fmt.Sprintf("node %d does not host partition %d (size %d) but answered a size lookup for it with len=%d and success: a dataset size computed through it is too small", entry, pi, sizes[pi], resp.GetLen()), c.History())
+				}
+			}
+		}
 		// one remote lookup fails, first or last
 		if remote >= 1 {
 			for _, failFirst := range []bool{true, false} {
